@@ -752,3 +752,37 @@ Proof.
   exact (ex_intro _ _ (ex_intro _ _ (conj CacheExamples.cname_twice_then_direct (conj eq_refl eq_refl)))).
 Qed.
 Print Assumptions C06_cache_example.
+
+(** * Round 4, found on the unchanged code (reported to the lead; draft
+    notes/fix-drafts/27-C06-cname-to-covered-name-asks-upstream.patch)
+
+    "A name matched by the table but without a value for the requested type
+    gets an empty successful answer, not the upstream's" does NOT hold for a
+    name reached through a canonical-name entry: the model, faithful to
+    filterDNSRequest / isRewrittenCNAME, resolves the canonical name
+    upstream although the table covers it.  Witness: AGHTechDoc's "Example:
+    CNAME+A records" (sub.host.com -> host.com, host.com -> 1.2.3.4), AAAA
+    query for sub.host.com, upstream with an AAAA record for host.com: the
+    document says "AAAA: CNAME = host.com", the answer also carries the
+    upstream's AAAA; asked directly host.com AAAA is answered empty. *)
+Theorem C06_cname_to_covered_name_refuted :
+  ~ (forall (upstream : bytes -> N -> N * list rr) tbl qname qt r p,
+      check_host isort true tbl qname qt = Some r -> r_reason r = Rewritten ->
+      r_canon r <> [] -> r_ips r = [] ->
+      process_rewrites isort tbl (r_canon r) qt = Some rewritten_empty ->
+      respond isort upstream true tbl qname qt = Some p ->
+      rp_upstream p = [] /\ rp_answer p = [RR_CNAME qname (r_canon r)]).
+Proof. exact CoveredTarget.covered_target_refuted. Qed.
+Print Assumptions C06_cname_to_covered_name_refuted.
+
+Theorem C06_cname_to_covered_name_witness :
+  respond isort CoveredTarget.up6 true DocExamples.t4 (bs "host.com") qAAAA =
+    Some {| rp_qname := bs "host.com"; rp_rcode := 0; rp_answer := []; rp_upstream := [] |} /\
+  respond isort CoveredTarget.up6 true DocExamples.t4 (bs "sub.host.com") qAAAA =
+    Some {| rp_qname := bs "sub.host.com"; rp_rcode := 0;
+            rp_answer := [RR_CNAME (bs "sub.host.com") (bs "host.com"); RR_AAAA (bs "host.com") 9];
+            rp_upstream := [(bs "host.com", qAAAA)] |}.
+Proof.
+  exact (conj CoveredTarget.covered_target_asked_directly CoveredTarget.covered_target_through_cname).
+Qed.
+Print Assumptions C06_cname_to_covered_name_witness.
